@@ -134,7 +134,7 @@ func svGetDomain(e *svEnv, n ons.Name) *ons.Domain {
 //
 // sv:bounds names {a.ol, x.a.ol} plus a bystander ba.ol (owned by the last party, never named by the transaction; its text ends with a.ol); a.ol absent or present with arbitrary owner/beneficiary among 2 (quick) / 3 (thorough) parties, expiry (0..2^40), sale flag and price, active flag; x.a.ol absent or present (owned by a.ol's owner); kind any of create/update/sell/purchase/send/renew/delete-sub; actor (owner/buyer/sender field, who signs) any party; amounts any integer in {OLT, unregistered} (quick) / any of the 4 currency names (thorough); balances arbitrary (< 2^100 nue); ONS options of the devnet genesis (base price 10^21, per-block 10^14); mempool-admitted regime; block height 20, committed version 2
 // sv:outside domain-name syntax beyond the two names; option changes; histories (one step)
-// sv:goal the bystander record never changes; owner, beneficiary, sale status/price, active flag, expiry and the sub-domain of a.ol change only if the actor is its current owner, or through a purchase; a purchase of a name on sale and not expired debits the buyer by at least the asking price and credits the previous owner exactly the asking price; a purchase of an expired name pays at least the base price into the fee pool; create only succeeds for a name without a record, and sets expiry = version + floor((price - base)/perBlock) (a sub-name: its parent's expiry); renew extends the expiry by exactly floor(price/perBlock); the sub-name's expiry follows its parent's on renew
+// sv:goal the bystander record never changes; owner, beneficiary, sale status/price, active flag, expiry and the sub-domain of a.ol change only if the actor is its current owner, or through a purchase; a purchase of a name on sale and not expired debits the buyer by at least the asking price and credits the previous owner exactly the asking price; a purchase of an expired name pays at least the base price into the fee pool and sets expiry = version + floor((offering - base)/perBlock), a purchase on sale extends the remaining life by floor((offering - price)/perBlock); create only succeeds for a name without a record, and sets expiry = version + floor((price - base)/perBlock) (a sub-name: its parent's expiry); renew extends the expiry by exactly floor(price/perBlock); the sub-name's expiry follows its parent's on renew
 func SV_C20_ons_step() {
 	pre := &svDomainPre{}
 	n := 3
@@ -180,11 +180,21 @@ func SV_C20_ons_step() {
 				got := new(big.Int).Sub(r.after.get("b:"+prev+":OLT"), r.before.get("b:"+prev+":OLT"))
 				sv.Assert(got.Cmp(pre.price) == 0, "previous-owner-receives-exactly-the-asking-price")
 			}
+			// the rest of the offering buys blocks on top of the remaining life
+			if top1 != nil {
+				extra := new(big.Int).Div(new(big.Int).Sub(svPayloadPrice(raw), pre.price), perBlock)
+				sv.Assert(extra.IsInt64() && top1.ExpireHeight == top0.ExpireHeight+extra.Int64(), "purchase-expiry-is-exactly-what-the-payment-buys")
+			}
 			sv.Cover(true, "bought-on-sale")
 		} else {
 			sv.Assert(top0 != nil && version > top0.ExpireHeight, "purchase-only-if-on-sale-or-expired")
 			poolGain := new(big.Int).Sub(r.after.get("f:pool"), r.before.get("f:pool"))
 			sv.Assert(poolGain.Cmp(base) >= 0, "expired-name-costs-at-least-the-base-price")
+			// an expired name starts a new life at the current version
+			if top1 != nil {
+				n := new(big.Int).Div(new(big.Int).Sub(svPayloadPrice(raw), base), perBlock)
+				sv.Assert(n.IsInt64() && top1.ExpireHeight == version+n.Int64(), "purchase-expiry-is-exactly-what-the-payment-buys")
+			}
 			sv.Cover(true, "bought-expired")
 		}
 		sv.Assert(sub1 == nil, "purchase-removes-the-sub-domains")
@@ -240,6 +250,10 @@ func svPayloadPrice(raw action.RawTx) *big.Int {
 		m := &action_ons.RenewDomain{}
 		m.Unmarshal(raw.Data)
 		return m.BuyingPrice.Value.BigInt()
+	case action.DOMAIN_PURCHASE:
+		m := &action_ons.DomainPurchase{}
+		m.Unmarshal(raw.Data)
+		return m.Offering.Value.BigInt()
 	}
 	return new(big.Int)
 }
